@@ -152,6 +152,8 @@ type stores struct {
 }
 
 type sys struct {
+	// destination views of VotingView/CommittingView polls, reused across polls
+	pollV, pollC tmconsensus.VersionedRoundView
 	w  *world
 	st *stores
 
